@@ -478,9 +478,26 @@ __CPROVER_requires((f == 12 || f == 24 || f == 60) && -f < a && a < f && FITS64(
 __CPROVER_ensures((Z)RV == SA_MUL(v, f) + a)
 __CPROVER_assigns();
 
+/* two arithmetic facts used by day_difference, over free variables (no division by a symbolic value inside the function's own queries) */
+#define lemma_c4_REQ(y1, a, y2, b, qa, qb) (((y1) >= 0 ? (a) >= 0 : (a) <= 0) && ((y2) >= 0 ? (b) >= 0 : (b) <= 0) && (Z)(y1) - (Z)(a) == (Z)400 * (Z)(qa) && (Z)(y2) - (Z)(b) == (Z)400 * (Z)(qb) && -400 < (a) && (a) < 400 && -400 < (b) && (b) < 400 && \
+  -((Z)1 << 62) < (Z)400 * ((Z)(qa) - (Z)(qb)) && (Z)400 * ((Z)(qa) - (Z)(qb)) < ((Z)1 << 62))
+#define lemma_c4_ENS(y1, a, y2, b, qa, qb) (FITS64((Z)(y1) - (Z)(a)) && FITS64((Z)(y2) - (Z)(b)) && (Z)(diff_t)(((y1) - (a)) - ((y2) - (b))) == (Z)400 * ((Z)(qa) - (Z)(qb)))
+#define lemma_dd3_REQ(qd, od) (FITS64((Z)146097 * (Z)(qd) + (Z)(od)) && -292194 < (Z)(od) && (Z)(od) < 292194 && ZB(qd, 66))
+#define lemma_dd3_ENS(qd, od) (-((Z)1 << 62) < (Z)400 * (Z)(qd) && (Z)400 * (Z)(qd) < ((Z)1 << 62))
+#define lemma_q400_REQ(x, k) ((Z)(x) == (Z)400 * (Z)(k) && ZB(k, 60))
+#define lemma_q400_ENS(x, k) ((Z)((x) / 400) == (Z)(k) && (x) % 400 == 0)
+/* day_difference: the ordinal distance of two valid dates = 146097 per 400-year cycle between them + the distance of their positions inside
+ * the cycle window (opaque ORDI of year % 400), which is less than two cycles; and a representable distance keeps the cycle count small */
+#define DD_E(y) ((int)((y) % 400))
+#define lemma_dd_REQ(y1, m1, d1, y2, m2, d2) (1 <= (m1) && (m1) <= 12 && 1 <= (d1) && (d1) <= 31 && 1 <= (m2) && (m2) <= 12 && 1 <= (d2) && (d2) <= 31 && \
+  FITS64(DAYORD(y1, m1, d1) - DAYORD(y2, m2, d2)))
+#define lemma_dd_ENS(y1, m1, d1, y2, m2, d2) ( \
+  DAYORD(y1, m1, d1) - DAYORD(y2, m2, d2) == (Z)146097 * ((Z)((y1) / 400) - (Z)((y2) / 400)) + (Z)ORDI(DD_E(y1), m1, d1) - (Z)ORDI(DD_E(y2), m2, d2) && \
+  -292194 < (Z)ORDI(DD_E(y1), m1, d1) - (Z)ORDI(DD_E(y2), m2, d2) && (Z)ORDI(DD_E(y1), m1, d1) - (Z)ORDI(DD_E(y2), m2, d2) < 292194 && \
+  -((Z)1 << 62) < (Z)400 * ((Z)((y1) / 400) - (Z)((y2) / 400)) && (Z)400 * ((Z)((y1) / 400) - (Z)((y2) / 400)) < ((Z)1 << 62))
 diff_t ymd_ord(year_t y, month_t m, day_t d)
 __CPROVER_requires(-400 < y && y < 400 && 1 <= m && m <= 12 && 1 <= d && d <= 31)
-__CPROVER_ensures(RV == ORD_I((int)y, m, d) - 719528)
+__CPROVER_ensures((Z)RV == (Z)ORDI((int)y, m, d) - 719528)
 __CPROVER_assigns();
 
 diff_t day_difference(year_t y1, month_t m1, day_t d1, year_t y2, month_t m2, day_t d2)
